@@ -608,20 +608,18 @@ def check_once(ctx: Context, rep, rule: str) -> None:
             raise AnalysisError(f"{fq}: reader methods missing")
         n += 1
         rets = [x for x in pal.body_nodes() if isinstance(x, ast.Return)]
-        ok = False
-        if len(rets) == 1 and isinstance(rets[0].value, ast.ListComp):
-            lc = rets[0].value
-            g = lc.generators[0]
-            fdefs = [x for x in pal.body_nodes() if isinstance(x, ast.Assign)
-                     and ast.unparse(x.value) ==
-                     "func_or_identity(self.process_record)"]
-            ok = len(lc.generators) == 1 and not g.ifs and isinstance(
-                lc.elt, ast.Call) and len(fdefs) == 1 and dotted(
-                    lc.elt.func) == dotted(fdefs[0].targets[0]) and len(
-                        lc.elt.args) == 1 and dotted(lc.elt.args[0]) == dotted(
-                            g.target) and "iterate_shard" in ast.unparse(g.iter)
+        # [f(e) for e in iterate_shard(path)] as a comprehension or a loop
+        from sa import collalg as _ca
+        ca_ = _ca.CollAlg(pal)
+        rt = ca_.term(ca_.returns[0]) if len(ca_.returns) == 1 else None
+        parts_ = _ca.concat_parts(rt) if rt is not None else []
+        ok = len(parts_) == 1 and parts_[0][0] == "map" and \
+            parts_[0][1][0] == "gen" and "iterate_shard(" in parts_[0][1][1] \
+            and parts_[0][2].replace(" ", "") == \
+            "func_or_identity(self.process_record)(_)"
         rep.ob(rule, ok, loc=pal.loc(), where=pal.qualname,
-               construct=short(rets[0], 100) if rets else "<none>",
+               construct="returns " + (_ca.pretty(rt)[:110]
+                                       if rt is not None else "<none>"),
                message="process_and_list = [f(example) for example in "
                "iterate_shard(path)] with f the reader's function or identity")
         for m in (it, ci.methods.get("iterate_shard_async"),
